@@ -839,6 +839,10 @@ def st_ptype_short(maxlen):
     return out
 
 
+COORD_WORDS = ["jar", "war", "ear", "pom", "aar", "bundle", "maven-plugin", "sources", "javadoc", "tests", "zip", "tar.gz", "tgz", "whl", "gem", "nupkg", "crate",
+               "git", "v2", "v10", "latest", "1.0", "1.0.0", "RELEASE", "SNAPSHOT", "JAR", "Jar", "jars", "test-jar", "ejb", "rar", "module", "java-source", "exe", "dll", "so", "main", "master", "HEAD", ""]
+
+
 def st_comb(ctx, n, label="comb"):
     r = ctx.rng(label)
     out = []
@@ -860,6 +864,14 @@ def st_comb(ctx, n, label="comb"):
         if r.chance(1, 4):
             s = rand_text(r, 0, 8)
         out.append(case("comb %s %s" % (ident, hx(s)), "comb-random", ident=ident, s=s))
+    # words another tool's coordinate syntax gives a meaning to (packagings, classifiers, extensions, version words),
+    # behind every separator, in names of one, two and three parts: part of the name, nothing else
+    for ident in IDENTS:
+        for sep in (":", "/", "@", ".", "-"):
+            for w_ in COORD_WORDS:
+                for pre in ("tool", "org.acme:tool", "org.acme/tool", "@scope/tool", "g:a:b"):
+                    s = pre + sep + w_
+                    out.append(case("comb %s %s" % (ident, hx(s)), "comb-words", ident=ident, s=s))
     return out
 
 
@@ -870,6 +882,12 @@ def st_combp(ctx, n, label="combp"):
         t = rand_tuple(r, ty=flipcase(r, r.pick(KNOWN_TYPES)), plain=r.chance(1, 3))
         s, _ = spell(r, t)
         out.append(case("combp " + hx(s), "combp", s=s))
+    for ty_ in KNOWN_TYPES:
+        for sep in (":", "%3A", "@", "%40", ".", "-"):
+            for w_ in COORD_WORDS:
+                for tpl in ("pkg:%s/org.acme/tool%s%s@1.0", "pkg:%s/org.acme%s%s/tool", "pkg:%s/ns/a%sb%s%s"):
+                    s = tpl % ((ty_, sep, w_) if tpl.count("%s") == 3 else (ty_, sep, sep, w_))
+                    out.append(case("combp " + hx(s), "combp", s=s))
     return out
 
 
